@@ -638,7 +638,20 @@ fn single_channel(reg: Reg, front: Front, ch: u8, rng: &mut Prng, col: &mut Coll
         if (ch as usize) >= reg.default_channels().len() {
             cmds.extend(new_channel_req(ch, f, 0x50));
         }
-        cmds.extend(link_adr_req(15, 15, 1 << ch, 0, 1));
+        // every other mask also enables a few indices at which no channel is defined (a mask the device may
+        // accept as long as one enabled channel exists): still a single usable channel
+        let mut mask: u16 = 1 << ch;
+        if rng.bool() {
+            let ndef = reg.default_channels().len() as u8;
+            for _ in 0..rng.range(1, 3) {
+                let i = rng.range(ndef as u64, 15) as u8;
+                if i != ch {
+                    mask |= 1 << i;
+                }
+            }
+            col.event("single_channel_masks_with_undefined_indices");
+        }
+        cmds.extend(link_adr_req(15, 15, mask, 0, 1));
     }
     let trace = vec![format!("single channel {}: {}", ch, hex(&cmds))];
     let f = net.mac_downlink(0, &cmds, cmds.len() <= 15);
